@@ -58,11 +58,12 @@ theorem startOps_notCS (th : Thread) (ops : List Op) (c : Cid) : (startOps th op
     | close c' => rfl
     | select cases blocking =>
       cases blocking with
-      | true => cases cases <;> rfl
+      | true => simp only [startOps]; split <;> rfl
       | false =>
-        cases cases with
-        | nil => simp only [startOps]; exact ih _
-        | cons cs r => rfl
+        simp only [startOps]
+        split
+        · exact ih _
+        · rfl
 
 theorem finishOp_notCS (th : Thread) (r : Res) (c : Cid) : (finishOp th r).pc.inCS c = false :=
   startOps_notCS _ _ _
